@@ -40,7 +40,9 @@
                        computed from the assets the witness itself exhibits;
    assets_of_ok        those assets are genuine (so Theorem A applies to that table);
    table_in_R          every table entry built from genuine assets is in the relation (Theorem A
-                       composed with Theorem B; raw_pk_h excluded: the table lists nothing for it).
+                       composed with Theorem B; raw_pk_h excluded: the table lists nothing for it);
+   table_is_canonical  ... and is a CANONICAL witness (direct induction): with Rcan_in_table,
+                       the table is exactly the canonical part of what the script accepts.
    Why each hypothesis of Rcan_in_table is needed (each is a malleability vector):
      * canonical: see the guarded clauses -- any 32-byte non-preimage dissatisfies a hash (table:
        32 zero bytes); pk_h accepts any key with the right hash160; or_b accepts both sides
@@ -55,7 +57,7 @@
    (or_d with a hash dissatisfied by 32 x 0xff; thresh(1,..) with two children satisfied as a
    dissatisfaction; or_b with both sides satisfied). *)
 From Verif Require Import Exec Ser Ast Types TypeCheck SatSpec ExecLemmas TheoremA.
-From Verif Require Import FrameBase FrameSound FrameDissat DenotSpec DenotLemmas DenotComplete DenotSound DenotMain DenotTable DenotExamples.
+From Verif Require Import FrameBase FrameSound FrameDissat DenotSpec DenotLemmas DenotComplete DenotSound DenotMain DenotTable DenotCanon DenotExamples.
 
 Theorem TheoremB_all_stacks :
   forall (e : env) (ke : keyenv) (m : ms) (t : ty), type_of m = ROk t -> wf e ke m ->
@@ -167,6 +169,17 @@ Theorem Table_in_relation :
     (c_base (t_corr t) <> BV -> forall w, In w (all_dsat ke A m) -> Rdsat e ke m w).
 Proof. exact table_in_R. Qed.
 Print Assumptions Table_in_relation.
+
+(* the table IS the canonical part: every entry built from genuine assets is a canonical witness
+   (direct induction over the typing rules, Proofs/DenotCanon.v); with [Canonical_in_own_table]:
+   canonical witnesses = table entries *)
+Theorem Table_is_canonical :
+  forall (e : env) (ke : keyenv) (A : assets), assets_ok e ke A -> (forall kbs, e_sigok e kbs [] = false) ->
+  forall (m : ms) (t : ty), type_of m = ROk t -> wf e ke m -> no_multi m ->
+    (forall w, In w (all_sat ke A m) -> Rsat_can e ke m w) /\
+    (forall w, In w (all_dsat ke A m) -> Rdsat_can e ke m w).
+Proof. exact table_is_canonical. Qed.
+Print Assumptions Table_is_canonical.
 
 (* ---------- non-vacuity: accepted, in the relation, in no table ---------- *)
 Example TheoremB_nonvacuous_hash_dissat :
